@@ -24,6 +24,17 @@ pub use self::fr::{Fr, FrRepr};
 pub(crate) use self::isogeny::IsogenyMap;
 pub(crate) use self::osswu_map::OSSWUMap;
 
+/// Verification hook: the crate-private map-to-curve building blocks, their
+/// addition chains, curve constants and isogeny coefficient tables.
+#[cfg(feature = "verif")]
+pub mod verif {
+    pub use super::cofactor::ClearH;
+    pub use super::isogeny::verif_tables as isogeny_tables;
+    pub use super::isogeny::IsogenyMap;
+    pub use super::osswu_map::verif_consts as osswu_consts;
+    pub use super::osswu_map::OSSWUMap;
+}
+
 pub mod transmute {
     pub use super::ec::g1::transmute_affine as g1_affine;
     pub use super::ec::g1::transmute_projective as g1_projective;
@@ -66,6 +77,8 @@ impl Engine for Bls12 {
             ),
         >,
     {
+        #[cfg(feature = "verif")]
+        ::verif_probe::probe(::verif_probe::MILLER_LOOP);
         let mut pairs = vec![];
         for &(p, q) in i {
             if !p.is_zero() && !q.is_zero() {
@@ -122,6 +135,8 @@ impl Engine for Bls12 {
     }
 
     fn final_exponentiation(r: &Fq12) -> Option<Fq12> {
+        #[cfg(feature = "verif")]
+        ::verif_probe::probe(::verif_probe::FINAL_EXP);
         let mut f1 = *r;
         f1.conjugate();
 
@@ -186,6 +201,8 @@ impl G2Prepared {
     }
 
     pub fn from_affine(q: G2Affine) -> Self {
+        #[cfg(feature = "verif")]
+        ::verif_probe::probe(::verif_probe::G2_PREPARE);
         if q.is_zero() {
             return G2Prepared {
                 coeffs: vec![],
